@@ -17,6 +17,8 @@ for name in sorted(os.listdir(os.path.join(V, "seeded"))):
         for pid, c in r["checks"].items():
             parts.append("%s exit %d%s" % (pid, c["exit"], (": " + ", ".join("`%s`" % k for k in c["violation_keys"][:2])) if c["violation_keys"] else ""))
         verdict = ("caught — " if r["caught"] else "**missed** — ") + "; ".join(parts)
+        if not r["caught"] and m.get("status"):
+            verdict += " — " + m["status"].split(":", 1)[-1].strip()[:260]
     val = res.get(name, {}).get("validation", {})
     v = "" if val.get("valid", True) else " (validation failed)"
     rows.append("| %s | %s%s | %s |" % (name, m["breaks"].replace("|", "\\|"), v, verdict.replace("|", "\\|")))
